@@ -170,9 +170,12 @@ class kLeastAbsErrorsCycles(walkmodel.AbstractWalkModelDiGraph):
 
         if len(self.trusted_edges_for_safety) == 0 and trusted_edges_for_safety_percentile is not None:            
             # Select edges where the flow_attr value is >= trusted_edges_for_safety_percentile (using self.G)
-            flow_values = [self.G.edges[edge][flow_attr] for edge in self.G.edges() if flow_attr in self.G.edges[edge]]
+            # (only among the edges whose value counts: not the ignored ones, nor those with error scale 0, whatever value they carry;
+            # and an edge of flow 0 is never trusted, as without the percentile)
+            not_counted = self.edges_to_ignore | {edge for edge, factor in dict(error_scaling_internal).items() if factor == 0}
+            flow_values = [self.G.edges[edge][flow_attr] for edge in self.G.edges() if flow_attr in self.G.edges[edge] and edge not in not_counted]
             percentile = np.percentile(flow_values, trusted_edges_for_safety_percentile) if flow_values else 0
-            self.trusted_edges_for_safety = set(edge for edge in self.G.edges() if flow_attr in self.G.edges[edge] and self.G.edges[edge][flow_attr] >= percentile)
+            self.trusted_edges_for_safety = set(edge for edge in self.G.edges() if flow_attr in self.G.edges[edge] and edge not in not_counted and self.G.edges[edge][flow_attr] >= percentile and self.G.edges[edge][flow_attr] > 0)
             utils.logger.info(f"{__name__}: trusted_edges_for_safety set using using percentile {trusted_edges_for_safety_percentile} = {percentile} to {self.trusted_edges_for_safety}")
 
         self.edge_error_scaling = dict(error_scaling_internal)      # (a copy: the factors are read again after solve(); later edits of the caller's dict must not reach the model)
